@@ -101,7 +101,9 @@ def a(ctx):
         for k, n in stores_to(f.node, AX, nested=False):
             if k in ("pop", "delitem", "popitem", "clear"):
                 removals.append((f, k, n))
-    ctx.floor("removal sites of _active_exchanges", len(removals), 3)
+    ctx.floor("removal sites of _active_exchanges", len(removals), 2)
+    from . import c03
+    c03.retransmit_removes_exchange(ctx)
     for f, k, n in removals:
         cfg = cfg_of(f)
         nid = cfg.loc1(n)
@@ -328,6 +330,14 @@ def e(ctx):
         ctx.ob("an exchange is started only by _send_initially and only for CON", ok and alive == {"CON"}, f, c)
         if ok:
             ctx.ob("the exchange is started for the message being sent", c.args and isinstance(c.args[0], ast.Name) and c.args[0].id == m, f, c)
+    # the exchange is registered before the message is handed to the transport: a transport that reports a send
+    # failure synchronously (udp6: error_received inside send()) must find the exchange it has to fail
+    sf = ctx.prog.func(MM + "_send_initially")
+    scfg = cfg_of(sf)
+    tx = [scfg.loc1(c) for c in calls_in(sf.node) if (call_name(c) or "") in ("self._send_via_transport", "self.message_interface.send")]
+    for f_, c_ in ae:
+        if f_ is sf:
+            ctx.ob("the exchange is registered before the message is handed to the transport", bool(tx) and all(not scfg.exists_path(t, scfg.loc1(c_)) for t in tx), sf, c_)
     ctx.floor("_send_initially call sites", len(si), 6)
     for f, c in si:
         if f.short in (MM + "send_message", MM + "_continue_backlog"):
@@ -368,6 +378,19 @@ def f(ctx):
     ctx.floor("backlog deletions", n_del, 3)
 
 
+@R.clause("C14.g", "an acknowledgement always ends the exchange ahead of the queue: every incoming ACK/RST reaches _remove_exchange (shared with C03.e)")
+def g_shared(ctx):
+    from . import c03
+    c03.e(ctx)
+
+
+@R.clause("C14.h", "when a backlog is dropped its requests really fail: the token manager fails every outstanding request of that remote, each through its own stopper (shared with C02.e)")
+def h_shared(ctx):
+    from . import c02
+    c02.e(ctx)
+    c02.j_forward(ctx)
+
+
 F_MM = "aiocoap/messagemanager.py"
 R.seed("C14.a", F_MM, "        self.log.debug(\"Exchange removed, message ID: %d.\", message.mid)\n\n        self._continue_backlog(message.remote)\n", "        self.log.debug(\"Exchange removed, message ID: %d.\", message.mid)\n", "backlog never continued")
 R.seed("C14.a", F_MM, "        if message.remote not in self._backlogs:\n            self._backlogs[message.remote] = []\n", "", "no backlog entry for the new exchange")
@@ -382,5 +405,9 @@ R.seed("C14.d", F_MM, "        while not any(r == remote for r, mid in self._act
 R.seed("C14.d", F_MM, "            if self._backlogs[remote] != []:\n                next_message", "            if self._backlogs[remote] == []:\n                next_message", "inverted emptiness test")
 R.seed("C14.d", F_MM, "                del self._backlogs[remote]\n                break", "                del self._backlogs[remote]", "loop continues after delete")
 R.seed("C14.e", F_MM, "        if message.mtype is CON:\n            assert messageerror_monitor is not None", "        if message.mtype is not None:\n            assert messageerror_monitor is not None", "exchange for non-CON")
+R.seed("C14.e", F_MM, "        if message.mtype is CON:\n            assert messageerror_monitor is not None, (\n                \"messageerror_monitor needs to be set for CONs\"\n            )\n            self._add_exchange(message, messageerror_monitor)\n\n        self._store_response_for_duplicates(message)\n\n        self._send_via_transport(message)\n", "        self._store_response_for_duplicates(message)\n\n        self._send_via_transport(message)\n\n        if message.mtype is CON:\n            assert messageerror_monitor is not None, (\n                \"messageerror_monitor needs to be set for CONs\"\n            )\n            self._add_exchange(message, messageerror_monitor)\n", "exchange registered after sending: a synchronous send error leaves a zombie exchange")
 R.seed("C14.f", F_MM, "            del self._backlogs[message.remote]\n            self.token_manager.dispatch_error(\n                error.ConRetransmitsExceeded(\"Retransmissions exceeded\"), message.remote\n            )", "            del self._backlogs[message.remote]", "queued requests forgotten on give-up")
 R.seed("C14.f", F_MM, "        self.token_manager.dispatch_error(error, remote)\n\n        keys_for_removal = []", "        keys_for_removal = []", "queued requests forgotten on transport error")
+
+R.seed("C14.g", F_MM, "        if message.code.is_request():\n            # Responses", "        if not message.code.is_response():\n            # Responses", "empty ACK/RST pass the duplicate filter first: an ACK with a recently seen message ID never ends the exchange")
+R.seed("C14.h", "aiocoap/tokenmanager.py", "                    lambda request=request, exception=exception: request.add_exception(\n                        exception\n                    )", "                    lambda: request.add_exception(\n                        exception\n                    )", "held-back requests are neither sent nor failed")
